@@ -609,6 +609,10 @@ def _normalize_media(media: Type[ComponentMediaInput]) -> None:
             css = lazy_eval_css
     ```
     """
+    # Allow: class Media: css = []
+    if isinstance(getattr(media, "css", None), (list, tuple)) and not media.css:
+        media.css = {}
+
     if hasattr(media, "css") and media.css:
         # Allow: class Media: css = "style.css"
         if _is_media_filepath(media.css):
